@@ -53,6 +53,45 @@ def compare(case, src, out, rec=None):
     return rich
 
 
+def _compare_unnamed(case, ss, os_):
+    """source models in which two tensors share a name (legal: names are labels; converters leave constants unnamed): operators cannot be matched through the names of
+    their results, so every operator the output model keeps on the CPU is looked up in the source by what it is - operator code, version, options, operand pattern
+    (omitted operands, element types, shapes, quantisation), the bytes of its constant operands and its results' types.  Each source operator can be claimed once."""
+    st, ot = ss["tensors"], os_["tensors"]
+
+    def norm(o):
+        return None if o is None or not o[1] else (o[0], tuple(sorted((k, repr(v)) for k, v in o[1].items())))
+
+    def sig(o, tensors):
+        ins = tuple(None if i < 0 else (repr(_tensor_sig(tensors[i])), tensors[i]["data"]) for i in o["inputs"])
+        outs = tuple(repr(_tensor_sig(tensors[t])) for t in o["outputs"])
+        return (o["code"], o["custom_code"], o["version"], norm(o["options"]), o["custom_options"], ins, outs)
+
+    pool = [sig(o, st) for o in ss["ops"]]
+    n = 0
+    for k, o in enumerate(os_["ops"]):
+        if o["custom_code"] == "ethos-u":
+            continue
+        g = sig(o, ot)
+        if g in pool:
+            pool.remove(g)
+            n += 1
+            continue
+        # say what is closest: same operator with another operand pattern?
+        same = [p for p in pool if p[:5] == g[:5]]
+        why = "no operator of that kind, version and options is left in the source"
+        if same:
+            p0 = same[0]
+            if len(p0[5]) != len(g[5]):
+                why = "operand count %d -> %d" % (len(p0[5]), len(g[5]))
+            else:
+                bad = [i for i, (a, b) in enumerate(zip(p0[5], g[5])) if a != b]
+                why = "operand(s) %s differ (omitted, other type/shape/quantisation, or other constant data)" % bad if bad else "result tensors differ"
+        raise Violation("C11/op-changed/unnamed", "operator %d (%s) of the output model matches no operator of the source (tensor names are not unique there, matched by content): %s" % (
+            k, o["custom_code"] or o["code"], why), case)
+    return n
+
+
 def _compare_sg(case, ss, os_, rec=None):
     st, ot = ss["tensors"], os_["tensors"]
     # 1 interface
@@ -64,11 +103,13 @@ def _compare_sg(case, ss, os_, rec=None):
             if _tensor_sig(st[i]) != _tensor_sig(ot[j]):
                 raise Violation("C11/interface/%s-tensor" % what, "subgraph %s tensor '%s': source %s, output model %s" % (what, st[i]["name"], _tensor_sig(st[i]), _tensor_sig(ot[j])), case)
     oname = {t["name"]: i for i, t in enumerate(ot)}
+    if len(set(t["name"] for t in st)) != len(st) and len(oname) == len(ot):
+        return _compare_unnamed(case, ss, os_)  # duplicate names in the source, none left in the output model: still nothing can be matched by name
     if len(oname) != len(ot):
         dup = [t["name"] for t in ot if [x["name"] for x in ot].count(t["name"]) > 1]
         src_names = [t["name"] for t in st]
         if any(src_names.count(n) > 1 for n in dup):
-            return 0  # the source itself re-uses a tensor name: operators cannot be matched by their result's name, nothing is decided for this case
+            return _compare_unnamed(case, ss, os_)  # the source itself re-uses a tensor name: operators cannot be matched by their result's name
         raise Violation("C11/output/duplicate-tensor-names", "output model has duplicate tensor names %s" % sorted(set(dup))[:4], case)
     # producers in the output model
     producer = {}
@@ -225,6 +266,16 @@ def strategy(profile):
 
     @st.composite
     def case(draw):
+        if profile == "unnamed":
+            # tensor names that repeat (unnamed constants, results all called "custom") in networks dominated by CPU-resident operators
+            import copy
+
+            import corners
+
+            spec = copy.deepcopy(draw(tflgen.network(draw(st.sampled_from(["cpumix", "cpumix", "wide"])), max_ops=5, big=False)))
+            r = corners.unnamed_consts(spec, draw, st)
+            spec["corners"] = [r] if r else []
+            return dict(kind="e2e", spec=spec, cfg=draw(tflgen.config()))
         if profile == "corners":
             # corner features that leave the model compilable: what the file says about interface tensors and CPU-resident operators must come back verbatim also when it is
             # unusual (a scale without zero point, no quantisation, shape signatures, duplicate names, dead operators, an input that is also an output, variable flags)
@@ -237,7 +288,7 @@ def strategy(profile):
             done = []
             for _ in range(draw(st.integers(1, 2))):
                 f = draw(st.sampled_from([corners.shape_signature, corners.dead_op, corners.output_is_input, corners.no_quant, corners.self_binary, corners.scale_only,
-                                          corners.scale_only, corners.wide_dtype, corners.custom_tail, corners.while_tail, corners.while_tail, corners.call_once_head]))
+                                          corners.scale_only, corners.wide_dtype, corners.custom_tail, corners.while_tail, corners.while_tail, corners.call_once_head, corners.unnamed_consts, corners.unnamed_consts]))
                 r = f(spec, draw, st)
                 if r:
                     done.append(r)
@@ -256,7 +307,7 @@ def run(ctx, arg, rec):
 def parts(ctx):
     q = ctx.quick
     return [Part("cpumix%02d" % i, run, (i, 45 if q else 1800, "cpumix")) for i in range(12)] + [Part("wide%02d" % i, run, (i, 40 if q else 900, "wide")) for i in range(4)] + [Part("corners%02d" % i, run, (i, 40 if q else 900, "corners")) for i in range(2)] + [
-        Part("rnn%02d" % i, run, (i, 12 if q else 400, "rnn")) for i in range(1)]
+        Part("rnn%02d" % i, run, (i, 12 if q else 400, "rnn")) for i in range(1)] + [Part("unnamed%02d" % i, run, (i, 30 if q else 600, "unnamed")) for i in range(2)]
 
 
 def replay(ctx, case):
